@@ -1092,6 +1092,8 @@ def digits17_stream(ctx, ExcelCompiler):
         tests = []
         for _ in range(rng.randrange(3, 7)):
             u, v = rng.choice(twins) if rng.random() < 0.6 else (rng.choice(values), rng.choice(values))
+            while u == v:
+                u, v = rng.choice(values), rng.choice(values)
             if rng.random() < 0.5:
                 u, v = v, u
             w = rng.choice(values)
